@@ -364,7 +364,31 @@ def immut_case(rng, a):
     S = [int(u) for u in ts.samples()]
     N = ts.num_nodes
 
+    class Hang(BaseException):
+        pass
+
+    def on_alarm(signum, frame):
+        raise Hang()
+    dead = []
+
     def record(name, fn):
+        # a call that does not come back (an object damaged by an earlier write makes an iteration endless) is a verdict, not a stuck check:
+        # the event carries a digest nothing equals and the rest of the case is skipped
+        if dead:
+            return
+        import signal
+        old = signal.signal(signal.SIGALRM, on_alarm)
+        signal.setitimer(signal.ITIMER_REAL, 60)
+        try:
+            record_(name, fn)
+        except Hang:
+            dead.append(name)
+            events.append(dict(call=name, raised=0, digest="NO-RETURN-WITHIN-60s", arrays=[], refetch_same=0))
+        finally:
+            signal.setitimer(signal.ITIMER_REAL, 0)
+            signal.signal(signal.SIGALRM, old)
+
+    def record_(name, fn):
         try:
             ret = fn()
             raised = 0
@@ -391,6 +415,8 @@ def immut_case(rng, a):
             except Exception:
                 refetch_same = 0
         events.append(dict(call=name, raised=raised, digest=digest(ts), arrays=arecs, refetch_same=refetch_same))
+        if not refetch_same or events[-1]["digest"] != d0:
+            dead.append(name)       # the object was changed through what it handed out: the verdict is in; nothing more is asked of a damaged object
     # --- TreeSequence attributes that are arrays / properties
     names = [n for n in dir(ts) if not n.startswith("_")]
     rng.shuffle(names)
